@@ -210,7 +210,9 @@ def one(rng, acc, d, record=True):
         shutil.copy(p, d / "joined" / p.name)
         shutil.copy(RE.sidecar(p), RE.sidecar(d / "direct" / p.name))
         shutil.copy(RE.sidecar(p), RE.sidecar(d / "joined" / p.name))
-    S = cls(d / "stub" / "rec", "r+")
+    S, err = RE.try_open(cls, d / "stub" / "rec", "r+")
+    if S is None:
+        return "stub-unusable", f"the stub cannot be opened for patching: {type(err).__name__}: {str(err)[:120]}"
     D = cls(d / "direct" / "rec", "r+")
     ups = gen_update(rng, real_view, rng.randint(2, 12))
     ndel = ncre = 0
